@@ -37,6 +37,9 @@ def headTailMult : List (Option Rat) := [some 1, none]
 def headTailBpm : List (Option Rat) := [none, none]
 /-- `override_bpm: float = None` in both `scroll_speed` and `sv_normalize` -/
 def overrideDefault : Option Rat := none
+/-- both `sort_values("offset", kind="stable")` calls of scroll_speed are stable sorts (fix of D28); the model's
+`sortRow` / `sortMRow` are stable insertion sorts -/
+def sortKinds : List String := ["stable", "stable"]
 /-- map classes for which `hasattr(m, "svs")` holds -/
 def gamesWithSv : List String := ["osu", "quaver"]
 
